@@ -797,13 +797,23 @@ func ruleDequeGuardTestsArgument(c *Ctx, r *R) {
 		negTest := false
 		good := true
 		var badPos token.Pos
-		for _, b := range fn.Blocks {
-			if len(b.Instrs) == 0 {
-				continue
+		type pblock struct {
+			b     *ssa.BasicBlock
+			chain []*ssa.Call
+		}
+		var panics []pblock
+		for _, fr := range deepFrames(fn, 2) { // the check may live in a helper (d.slot(i))
+			for _, b := range fr.f.Blocks {
+				if len(b.Instrs) == 0 {
+					continue
+				}
+				if _, isPanic := b.Instrs[len(b.Instrs)-1].(*ssa.Panic); isPanic {
+					panics = append(panics, pblock{b, fr.chain})
+				}
 			}
-			if _, isPanic := b.Instrs[len(b.Instrs)-1].(*ssa.Panic); !isPanic {
-				continue
-			}
+		}
+		for _, pbk := range panics {
+			b, chain := pbk.b, pbk.chain
 			// the disjuncts of the guard: one branch per predecessor of the panic block (`i < 0 || i >= Len()`)
 			var gs []guard
 			for _, pb := range b.Preds {
@@ -821,7 +831,7 @@ func ruleDequeGuardTestsArgument(c *Ctx, r *R) {
 					if side[0] == cf.y {
 						op = flip(op)
 					}
-					v := resolveVal(side[0])
+					v := resolveVal(argOf(resolveVal(side[0]), chain))
 					if v == ssa.Value(arg) {
 						if (op == token.LSS && isConstInt(side[1], 0)) || (op == token.LEQ && isConstInt(side[1], -1)) {
 							negTest = true
